@@ -291,7 +291,7 @@ fn run_case_inner(case: &Case) -> Result<Outcome, String> {
         let cpu0 = cpu_ns();
         match case.transport {
             Tr::Tls => {
-                let listener = TcpListener::bind("127.0.0.1:0").await.map_err(|e| e.to_string())?;
+                let listener = net::bind_local().map_err(|e| e.to_string())?;
                 let port = listener.local_addr().map_err(|e| e.to_string())?.port();
                 let acceptor = net::tls_acceptor("server.crt", "server.key");
                 let server = tokio::spawn(net::tls_server(listener, acceptor, script, pre));
@@ -308,7 +308,7 @@ fn run_case_inner(case: &Case) -> Result<Outcome, String> {
                 server.abort();
             }
             Tr::Ssh => {
-                let listener = TcpListener::bind("127.0.0.1:0").await.map_err(|e| e.to_string())?;
+                let listener = net::bind_local().map_err(|e| e.to_string())?;
                 let port = listener.local_addr().map_err(|e| e.to_string())?.port();
                 let server = tokio::spawn(net::ssh_server(
                     listener,
